@@ -30,7 +30,9 @@ def jobs_for(tier):
     if tier == 'quick':
         tpls = corpus.select(feats={'basic', 'ext', 'tag', 'set', 'setof', 'named', 'opt', 'bits'}, exclude={'manyadd'})
     else:
-        tpls = corpus.TEMPLATES
+        tpls = corpus.TEMPLATES + corpus.generated(exclude={'real'})
+    if tier == 'quick':
+        tpls = tpls + corpus.generated(quick=True, exclude={'real'})
     for t in tpls:
         jobs.append(dict(id='%s/der' % t['id'], template=t['id'], codec='der', tier=tier, numeric_enums=False))
         if 'enum' in t['feats'] and tier == 'thorough':
